@@ -96,7 +96,9 @@ class FormatConverter(object):
                              "Please choose from the list: {}".format(list(CONVERSION_FORMATS)))
 
         cls._check_input_output_directory(input_dir, output_dir)
-        input_dir = os.path.join(input_dir, '')
+        # Work with the absolute path: the default output directory is a sibling of
+        # the input directory, which cannot be derived from a path like '.'.
+        input_dir = os.path.join(os.path.abspath(input_dir), '')
 
         if output_dir is None:
             # find the directory that contains input_dir
